@@ -10,6 +10,25 @@
 //!   no `erate` key = latency-only layer (`NoErrorInjection`); `order=1` = `.error_fn().error_rate()`
 //!   `handles=k`: which handle of the service serves a request. 0 (default) = a fresh clone of the
 //!   pristine service per request; k >= 1 = k clones taken up front, request c goes to handle c mod k
+//!   `ready=<script>`: the wrapped service of instance A is the STRICT scripted service (`Inner::strict`): readiness is
+//!   per instance (a clone is not ready; a call uses the readiness up), successive `poll_ready` calls reaching it (on
+//!   any instance) are answered from the script ('r' ready, 'p' pending, 'e' error; exhausted: ready), and every
+//!   `inner_call` line says whether the instance called had reported ready since its last call (`ready=1|0`).
+//!   Without the key: the always-ready service that does not log readiness (as before).
+//!
+//! `arrive c … [via=<mode>] [tvia=<mode>]`: how the caller obtains the handle it calls — all legitimate Tower usage,
+//! all must behave alike (the modes of `mw_bulkhead.rs`). The "template" is the handle the request is routed to
+//! (`handles=0`: the pristine service; k >= 1: kept clone c mod k; the twin: its one handle).
+//!   `clone`      clone the template, ready the clone, call the clone (default of instance A with `handles=0`)
+//!   `readyclone` ready the template first, then clone it, ready the clone, call the clone (the template stays
+//!                ready-but-uncalled: a handle is cloned between `poll_ready` and `call`)
+//!   `swap`       the `mem::replace` idiom: ready the template, leave a fresh clone in its place, call the readied one
+//!   `template`   ready and call the template itself (default of instance A with `handles=k`, and of the twin)
+//! `via` is the mode of instance A, `tvia` that of the twin (whose wrapped service is silent but strict too: a call on
+//! an instance that never reported ready is noted as `#unready-b c`). Every `poll_ready` answer of the layer during an
+//! arrival of instance A and every answer its wrapped service gave meanwhile are noted as `#rdy c via=<mode>
+//! layer=<answers> inner=<answers>` (the layer forwards readiness). A request refused by `poll_ready` (pending or
+//! error) is not made: `result c notready`.
 //!
 //! No hook into the repository: the adapter holds a mirror `StdRng::seed_from_u64(seed)`. In the
 //! first poll of a call future it draws speculatively on clones of the mirror, in the order the
@@ -21,7 +40,7 @@
 //! Determinism is also checked directly, twice, without the model:
 //!  * twin: every request is given to a second, equally seeded layer instance (over a silent inner
 //!    service) polled in the same step, but driven differently: the twin is ONE handle that is never
-//!    cloned, and its `call()` happens only at the first poll (instance A: clones, `call()` at
+//!    cloned (unless `tvia=` asks for another caller mode), and its `call()` happens only at the first poll (instance A: clones, `call()` at
 //!    `arrive`). Same seed + same order of requests must give the same decisions whichever clone
 //!    serves a request and whenever the future was created; any difference in behaviour is logged as
 //!    `twin-mismatch`, and the decisions the two instances report for a request (`#obs` / `#obsb`) are compared.
@@ -60,7 +79,48 @@ use tower_resilience_chaos::ChaosLayer;
 
 const P53: u64 = 1 << 53;
 type Fut = BoxFuture<'static, Result<Resp, IErr>>;
-type MakeFut = Box<dyn FnMut(Req) -> Option<Fut>>;
+type MakeFut = Box<dyn FnMut(Req, Via) -> Option<Fut>>;
+
+/// how the caller obtains the handle it calls (see the module documentation)
+#[derive(Clone, Copy, Debug, PartialEq, Eq)]
+enum Via {
+    Clone,
+    ReadyClone,
+    Swap,
+    Template,
+}
+impl Via {
+    fn parse(s: Option<&str>, default: Via) -> Via {
+        match s {
+            Some("clone") => Via::Clone,
+            Some("readyclone") => Via::ReadyClone,
+            Some("swap") => Via::Swap,
+            Some("template") => Via::Template,
+            _ => default,
+        }
+    }
+    fn name(self) -> &'static str {
+        match self {
+            Via::Clone => "clone",
+            Via::ReadyClone => "readyclone",
+            Via::Swap => "swap",
+            Via::Template => "template",
+        }
+    }
+}
+
+thread_local! {
+    /// `poll_ready` answers during the current arrival of instance A: of the layer / of its wrapped service
+    static RDY_LAYER: RefCell<String> = RefCell::new(String::new());
+    static RDY_INNER: RefCell<String> = RefCell::new(String::new());
+}
+fn rdy_char<E>(r: &Poll<Result<(), E>>) -> char {
+    match r {
+        Poll::Ready(Ok(())) => 'r',
+        Poll::Ready(Err(_)) => 'e',
+        Poll::Pending => 'p',
+    }
+}
 type Hook0 = Box<dyn Fn() + Send + Sync>;
 type HookD = Box<dyn Fn(Duration) + Send + Sync>;
 type Calls = Arc<Mutex<HashMap<usize, u64>>>;
@@ -189,13 +249,19 @@ fn decide_next(rng: &mut StdRng, et: u64, lt: u64, lo: u64, hi: u64) -> Dec {
 struct Tap<S> {
     inner: S,
     calls: Calls,
+    /// instance A: note every readiness answer of the wrapped service (`RDY_INNER`)
+    trace: bool,
 }
 impl<S: Service<Req>> Service<Req> for Tap<S> {
     type Response = S::Response;
     type Error = S::Error;
     type Future = S::Future;
     fn poll_ready(&mut self, cx: &mut Context<'_>) -> Poll<Result<(), S::Error>> {
-        self.inner.poll_ready(cx)
+        let r = self.inner.poll_ready(cx);
+        if self.trace {
+            RDY_INNER.with(|x| x.borrow_mut().push(rdy_char(&r)));
+        }
+        r
     }
     fn call(&mut self, req: Req) -> S::Future {
         self.calls.lock().unwrap().insert(req.c, now_ms());
@@ -203,17 +269,30 @@ impl<S: Service<Req>> Service<Req> for Tap<S> {
     }
 }
 
-/// inner service of the twin instance: answers at once, logs nothing, consumes no serial
-#[derive(Clone)]
-struct Quiet;
+/// inner service of the twin instance: answers at once, logs nothing, consumes no serial. Always ready when asked,
+/// but strict: readiness is per instance (a clone is not ready, a call uses the readiness up); a call on an instance
+/// that has not reported ready since its last call is noted (`#unready-b c`)
+struct Quiet {
+    ready: bool,
+}
+impl Clone for Quiet {
+    fn clone(&self) -> Quiet {
+        Quiet { ready: false }
+    }
+}
 impl Service<Req> for Quiet {
     type Response = Resp;
     type Error = IErr;
     type Future = std::future::Ready<Result<Resp, IErr>>;
     fn poll_ready(&mut self, _cx: &mut Context<'_>) -> Poll<Result<(), IErr>> {
+        self.ready = true;
         Poll::Ready(Ok(()))
     }
     fn call(&mut self, req: Req) -> Self::Future {
+        if !self.ready {
+            log_raw(format!("#unready-b {}", req.c));
+        }
+        self.ready = false;
         std::future::ready(Ok(Resp { v: 0, c: req.c, tag: req.tag }))
     }
 }
@@ -231,45 +310,62 @@ trait Consumer<R> {
         Sv: Service<Req, Response = Resp, Error = IErr, Future = Fut> + Clone + Send + 'static;
 }
 
-/// instance A: requests are served by clones (`handles` = 0: a fresh clone of the pristine service per
-/// request; k >= 1: k clones taken up front, request c goes to handle c mod k)
-struct Cloning(usize);
-impl Consumer<MakeFut> for Cloning {
-    fn take<Sv>(self, svc: Sv, layer: Box<dyn Any>) -> MakeFut
-    where
-        Sv: Service<Req, Response = Resp, Error = IErr, Future = Fut> + Clone + Send + 'static,
-    {
-        let k = self.0;
-        let mut hs: Vec<Sv> = (0..k).map(|_| svc.clone()).collect();
-        Box::new(move |req| {
-            let _keep = &layer;
-            let mut fresh;
-            let s = if k == 0 {
-                fresh = svc.clone();
-                &mut fresh
-            } else {
-                &mut hs[req.c % k]
-            };
-            match poll_ready_once(s) {
-                Poll::Ready(Ok(())) => Some(s.call(req)),
-                _ => None,
-            }
-        })
-    }
+/// The caller of one instance: `k` = 0: the template is the pristine service; k >= 1: k clones taken up front,
+/// the template of request c is handle c mod k. How the handle that is called is obtained from the template: `Via`.
+/// `trace`: note the layer's readiness answers (`RDY_LAYER`; instance A).
+struct Handles {
+    k: usize,
+    trace: bool,
 }
-
-/// the twin: one handle, never cloned
-struct Single;
-impl Consumer<MakeFut> for Single {
+impl Consumer<MakeFut> for Handles {
     fn take<Sv>(self, mut svc: Sv, layer: Box<dyn Any>) -> MakeFut
     where
         Sv: Service<Req, Response = Resp, Error = IErr, Future = Fut> + Clone + Send + 'static,
     {
-        Box::new(move |req| {
+        let (k, trace) = (self.k, self.trace);
+        let mut hs: Vec<Sv> = (0..k).map(|_| svc.clone()).collect();
+        Box::new(move |req, via| {
             let _keep = &layer;
-            match poll_ready_once(&mut svc) {
-                Poll::Ready(Ok(())) => Some(svc.call(req)),
-                _ => None,
+            let t: &mut Sv = if k == 0 { &mut svc } else { &mut hs[req.c % k] };
+            let ready = |s: &mut Sv| {
+                let r = poll_ready_once(s);
+                if trace {
+                    RDY_LAYER.with(|x| x.borrow_mut().push(rdy_char(&r)));
+                }
+                matches!(r, Poll::Ready(Ok(())))
+            };
+            match via {
+                Via::Clone => {
+                    let mut h = t.clone();
+                    if !ready(&mut h) {
+                        return None;
+                    }
+                    Some(h.call(req))
+                }
+                Via::ReadyClone => {
+                    if !ready(t) {
+                        return None;
+                    }
+                    let mut h = t.clone();
+                    if !ready(&mut h) {
+                        return None;
+                    }
+                    Some(h.call(req))
+                }
+                Via::Swap => {
+                    if !ready(t) {
+                        return None;
+                    }
+                    let fresh = t.clone();
+                    let mut readied = std::mem::replace(t, fresh);
+                    Some(readied.call(req))
+                }
+                Via::Template => {
+                    if !ready(t) {
+                        return None;
+                    }
+                    Some(t.call(req))
+                }
             }
         })
     }
@@ -381,7 +477,7 @@ struct TwinSide {
     /// the twin's only handle (and its layer); `None` once every handle has been dropped
     make: Option<MakeFut>,
     /// arrived, not yet first polled, in arrival order
-    waiting: Vec<(usize, Req)>,
+    waiting: Vec<(usize, Req, Via)>,
     /// `call()` made at `manual dropsvc` for a request that had not been polled yet
     made: HashMap<usize, Option<Fut>>,
 }
@@ -417,13 +513,23 @@ impl Adapter {
         let cur_b: Cur = Default::default();
         let a_calls: Calls = Default::default();
         let b_calls: Calls = Default::default();
+        // `ready=<script>`: the strict scripted service (readiness per instance, answers from the script)
+        let inner = match kv.get("ready") {
+            Some(script) => Inner::strict(script),
+            None => Inner::new(),
+        };
         let make_a = build(
-            Tap { inner: Inner::new(), calls: a_calls.clone() },
+            Tap { inner, calls: a_calls.clone(), trace: true },
             &p,
             hooks_a(&p, mirror.clone(), cur.clone()),
-            Cloning(p.handles),
+            Handles { k: p.handles, trace: true },
         );
-        let make_b = build(Tap { inner: Quiet, calls: b_calls.clone() }, &p, hooks_b(cur_b.clone()), Single);
+        let make_b = build(
+            Tap { inner: Quiet { ready: false }, calls: b_calls.clone(), trace: false },
+            &p,
+            hooks_b(cur_b.clone()),
+            Handles { k: 0, trace: false },
+        );
         let twin = Rc::new(RefCell::new(TwinSide { make: Some(make_b), waiting: Vec::new(), made: HashMap::new() }));
         Adapter { p, make_a: Some(make_a), twin, a_calls, b_calls, mirror, oracle, cur, cur_b }
     }
@@ -496,10 +602,10 @@ impl Future for Pair {
             let mut tw = this.twin.borrow_mut();
             if let Some(f) = tw.made.remove(&this.c) {
                 this.fb = f;
-            } else if let Some(i) = tw.waiting.iter().position(|(c, _)| *c == this.c) {
-                let (_, req) = tw.waiting.remove(i);
+            } else if let Some(i) = tw.waiting.iter().position(|(c, _, _)| *c == this.c) {
+                let (_, req, via) = tw.waiting.remove(i);
                 if let Some(mk) = tw.make.as_mut() {
-                    this.fb = mk(req);
+                    this.fb = mk(req, via);
                 }
             }
         }
@@ -534,7 +640,7 @@ impl Drop for Pair {
         if self.first {
             // never polled: the twin has no `call()` to make for it any more
             if let Ok(mut tw) = self.twin.try_borrow_mut() {
-                tw.waiting.retain(|(c, _)| *c != self.c);
+                tw.waiting.retain(|(c, _, _)| *c != self.c);
                 tw.made.remove(&self.c);
             }
         }
@@ -724,6 +830,7 @@ impl Adapter {
     /// Nondeterministic by nature (real scheduling): a clean run proves nothing, a failing run is a
     /// concrete counter-example and is reported in full (`#stress-fail`).
     fn stress(&mut self, kv: &Kv) {
+        let _busy = Busy::new();
         let threads = kv.u64("threads", 4).clamp(1, 64) as usize;
         let calls = kv.u64("calls", 1000).min(50_000_000) as usize;
         let (et, lt, lo, hi) = (self.p.et(), self.p.lt(), self.p.min_ms(), self.p.max_ms());
@@ -842,11 +949,24 @@ impl Mw for Adapter {
             return None;
         };
         let req = Req::new(c, kv);
-        let Some(fa) = make_a(req.clone()) else {
+        let via = Via::parse(kv.get("via"), if self.p.handles == 0 { Via::Clone } else { Via::Template });
+        let tvia = Via::parse(kv.get("tvia"), Via::Template);
+        RDY_LAYER.with(|x| x.borrow_mut().clear());
+        RDY_INNER.with(|x| x.borrow_mut().clear());
+        let made = make_a(req.clone(), via);
+        log_raw(format!(
+            "#rdy {} via={} layer={} inner={}",
+            c,
+            via.name(),
+            RDY_LAYER.with(|x| x.borrow().clone()),
+            RDY_INNER.with(|x| x.borrow().clone())
+        ));
+        let Some(fa) = made else {
             log(format!("result {} notready", c));
             return None;
         };
-        self.twin.borrow_mut().waiting.push((c, req));
+        log_raw(format!("#tvia {} {}", c, tvia.name()));
+        self.twin.borrow_mut().waiting.push((c, req, tvia));
         Some(Box::pin(Pair {
             c,
             fa,
@@ -892,8 +1012,8 @@ impl Mw for Adapter {
             let mut tw = self.twin.borrow_mut();
             let waiting = std::mem::take(&mut tw.waiting);
             if let Some(mut mk) = tw.make.take() {
-                for (c, req) in waiting {
-                    let f = mk(req);
+                for (c, req, via) in waiting {
+                    let f = mk(req, via);
                     tw.made.insert(c, f);
                 }
             }
